@@ -48,8 +48,11 @@ type c20GatedReaderAt struct {
 	g *c20Gate
 }
 
-func (p *c20GatedReaderAt) Read(b []byte) (int, error)            { p.g.wait(); return p.r.Read(b) }
-func (p *c20GatedReaderAt) ReadAt(b []byte, o int64) (int, error) { p.g.wait(); return p.r.ReadAt(b, o) }
+func (p *c20GatedReaderAt) Read(b []byte) (int, error) { p.g.wait(); return p.r.Read(b) }
+func (p *c20GatedReaderAt) ReadAt(b []byte, o int64) (int, error) {
+	p.g.wait()
+	return p.r.ReadAt(b, o)
+}
 
 type c20GatedReader struct {
 	r io.Reader
